@@ -112,6 +112,24 @@ def expectRawPath (t : URL) (without : Str) (u : URL) : Str :=
 def expectQuery (t : URL) (q : Str) : Str :=
   if t.rawQuery == [] then q else if q == [] then t.rawQuery else t.rawQuery ++ [38] ++ q
 
+/-- the header a replacement acts on -/
+def replTargets (repls : Repls) : List Str := repls.map fun fr => canon fr.1
+
+/-- no two replacement entries act on the same header (they are the keys of a Go map) -/
+def replsDistinct (repls : Repls) : Bool := nodupB (replTargets repls)
+
+/-- the value list of `k` after the replacements: the pairs configured for `k`, in order -/
+def replEffect (repl : Str → Str) (repls : Repls) (k : Str) (old : List Str) : List Str :=
+  match repls.find? (fun fr => canon fr.1 == k) with
+  | some fr => fr.2.foldl (replOn repl) old
+  | none => old
+
+/-- upstream credentials: used only when the request has no Authorization value of its own -/
+def credEffect (cred : Option Str) (k : Str) (old : List Str) : List Str :=
+  match cred with
+  | some c => if k == sAuthorization && old.headD [] == [] then [c] else old
+  | none => old
+
 def expectReqVals (hop : List Str) (repl : Str → Str) (u : Upstream) (r : Request) (k : Str) : List Str :=
   let s1 := if isHop hop r.header k then [] else r.header.vals k
   let s2 :=
@@ -120,19 +138,27 @@ def expectReqVals (hop : List Str) (repl : Str → Str) (u : Upstream) (r : Requ
       | some (ip, _) => [if s1 != [] then joinCommaSpace s1 ++ commaSpace ++ ip else ip]
       | none => s1
     else s1
-  ruleEffect repl u.upRules k s2
+  replEffect repl u.upRepls k (ruleEffect repl u.upRules k (credEffect u.cred k s2))
+
+/-- `outreq.Host`: the backend's host, unless the rules produce a Host header (its last value wins) -/
+def expectHost (hop : List Str) (repl : Str → Str) (u : Upstream) (r : Request) : Str :=
+  match (expectReqVals hop repl u r sHost).getLast? with
+  | some v => v
+  | none => u.target.host
 
 def bodyBytes : Option Str → Str
   | some b => b
   | none => []
 
 def reqKeys (hop : List Str) (u : Upstream) (r o : Request) : List Str :=
-  r.header.keys ++ o.header.keys ++ (u.upRules.map fun x => ruleTarget x.1) ++ [sXFF] ++ hop
-    ++ (connListed r.header).map canon
+  r.header.keys ++ o.header.keys ++ (u.upRules.map fun x => ruleTarget x.1) ++ [sXFF, sAuthorization] ++ hop
+    ++ (connListed r.header).map canon ++ replTargets u.upRepls
 
 def reqHeaderClass (hop : List Str) (u : Upstream) (r : Request) (k : Str) : String :=
   if isHop hop r.header k then "hop-leaked"
   else if (u.upRules.map fun x => ruleTarget x.1).contains k then "upstream-rule"
+  else if (replTargets u.upRepls).contains k then "upstream-replacement"
+  else if k == sAuthorization then "upstream-credentials"
   else if k == sXFF then "x-forwarded-for"
   else "end-to-end-header"
 
@@ -144,6 +170,7 @@ def verdictReq (hop : List Str) (repl : Str → Str) (u : Upstream) (r o : Reque
   else if o.url.rawQuery != expectQuery u.target r.url.rawQuery then "bad:query:changed"
   else if o.contentLength != r.contentLength then "bad:content-length:changed"
   else if bodyBytes o.body != bodyBytes r.body then "bad:body:changed"
+  else if o.host != expectHost hop repl u r then "bad:host:Host sent to the backend is neither the backend's nor the configured one"
   else
     match (reqKeys hop u r o).find? (fun k => o.header.vals k != expectReqVals hop repl u r k) with
     | some k => "bad:" ++ reqHeaderClass hop u r k ++ ":" ++ String.ofList (k.map fun c => Char.ofNat c.toNat)
